@@ -12,7 +12,11 @@ fn opts_eq(a: &Value, b: &Value) -> bool {
 pub fn out_from_bytes(b: &[u8]) -> (Value, Option<Packet>) {
     match guarded(|| Packet::from_bytes(b)) {
         None => (json!({"k": "panic"}), None),
-        Some(Err(e)) => (json!({"k": "err", "e": format!("{:?}", e)}), None),
+        // (an error that cannot be shown is no better than a panic: both forms are produced here)
+        Some(Err(e)) => match guarded(|| (format!("{:?}", e), e.to_string())) {
+            Some((d, _)) => (json!({"k": "err", "e": d}), None),
+            None => (json!({"k": "panic"}), None),
+        },
         Some(Ok(p)) => (json!({"k": "ok", "msg": jpkt(&p)}), Some(p)),
     }
 }
@@ -26,7 +30,10 @@ pub fn out_to_bytes(p: &Packet, limit: Option<Option<usize>>) -> Value {
     });
     match r {
         None => json!({"k": "panic"}),
-        Some(Err(e)) => json!({"k": "err", "e": format!("{:?}", e)}),
+        Some(Err(e)) => match guarded(|| (format!("{:?}", e), e.to_string())) {
+            Some((d, _)) => json!({"k": "err", "e": d}),
+            None => json!({"k": "panic"}),
+        },
         Some(Ok(b)) => json!({"k": "ok", "bytes": jbytes(&b)}),
     }
 }
@@ -836,6 +843,24 @@ pub fn rec_wire_limit(args: &Args) {
             for l in [wl.saturating_sub(1), wl, wl + 1, usize::MAX, usize::MAX - 3, 1usize << 32] {
                 ev_to_bytes(&mut out, p, Some(Some(l)));
             }
+        }
+    }
+    // the public HeaderRaw::serialize_into on buffers of every fill state: it appends the four header bytes
+    // (refusing a buffer whose capacity is below 4), and never leaves len above capacity
+    for cap_extra in [0usize, 1, 2, 3, 4, 5, 8] {
+        for len in [0usize, 1, 2, 3, 4, 6, 9] {
+            let mut buf: Vec<u8> = Vec::with_capacity(len + cap_extra);
+            buf.extend((0..len).map(|i| 0xC0 + i as u8));
+            let cap = buf.capacity();
+            let pre = buf.clone();
+            let raw = coap_lite::HeaderRaw::try_from(&[0x48 + (len as u8 % 4), 0x45, (len as u8) ^ 0x5A, cap_extra as u8][..]).unwrap();
+            let res = guarded(|| { let mut b = buf; let r = raw.serialize_into(&mut b); (r.is_ok(), b.len() <= b.capacity(), b) });
+            let o = match res {
+                None => json!({"k": "panic"}),
+                Some((true, fits, b)) => json!({"k": "ok", "bytes": jbytes(&b), "fits": fits}),
+                Some((false, fits, b)) => json!({"k": "err", "bytes": jbytes(&b), "fits": fits}),
+            };
+            out.ev(json!({"op": "hdr_ser", "pre": jbytes(&pre), "cap": cap, "hdr": [0x48 + (len as u8 % 4), 0x45, (len as u8) ^ 0x5A, cap_extra as u8], "out": o}));
         }
     }
     // header replaced after set_token (the header is a public field): its token-length nibble then
